@@ -91,6 +91,7 @@ def main():
     ap.add_argument("--prop", default=None)
     ap.add_argument("--seed", type=int, default=int(os.environ.get("VERIF_SEED", "0") or 0))
     ap.add_argument("--max", type=int, default=0)
+    ap.add_argument("--slice", default=None, help="a:b:step over the ordered list (mutants then seeds), to split one selftest over several processes")
     a = ap.parse_args()
     muts = load_mutants() + load_seeded()
     if a.prop:
@@ -101,6 +102,9 @@ def main():
         import random
         r = random.Random(a.seed)
         muts = r.sample(muts, a.max)
+    if a.slice:
+        lo, hi, st = (a.slice.split(":") + ["", ""])[:3]
+        muts = muts[int(lo or 0):int(hi) if hi else None:int(st or 1)]
     scratch = tempfile.mkdtemp(prefix="fibre-selftest.")
     results = []
     try:
@@ -137,11 +141,12 @@ def main():
             print(f"{st[0]} {mu['id']} [{mu['prop']}] ({time.time()-t0:.0f}s) {st[1]}", flush=True)
     finally:
         shutil.rmtree(scratch, ignore_errors=True)
-        shutil.rmtree(os.path.join(VERIF, "out", "_scratch"), ignore_errors=True)
+        if not a.slice:
+            shutil.rmtree(os.path.join(VERIF, "out", "_scratch"), ignore_errors=True)
     n = len(results)
     caught = sum(1 for r in results if r[1] == "CAUGHT")
     print(f"selftest: {caught}/{n} caught; missed={[r[0] for r in results if r[1]=='MISSED']} skipped={[r[0] for r in results if r[1] in ('SKIP','BUILD-FAIL')]}")
-    with open(os.path.join(VERIF, "out", "selftest_last.json"), "w") as fh:
+    with open(os.path.join(VERIF, "out", "selftest_last.json" if not a.slice else "selftest_" + a.slice.replace(":", "_") + ".json"), "w") as fh:
         json.dump([{"id": i, "status": s, "detail": d} for i, s, d in results], fh, indent=1)
     return 0 if caught == n else 1
 
